@@ -441,12 +441,19 @@ theorem chanClose_good (cfg : Cfg) (w : World) (c : Nat) (hg : Good w) : Good (c
       · subst h; simp [setChan]; exact hg.2 c'
       · simp [setChan, h]; exact hg.2 c'
 
+theorem supPush_good {cfg : Cfg} (hc : CfgChan cfg) (w : World) (c x : Nat) (hg : Good w) : Good (supPush cfg w c x).1 := by
+  unfold supPush
+  cases hp : chanPush cfg w 0 c x 2 with
+  | closedErr => exact hg
+  | ok w1 b => exact chanPush_good hc hp hg
+
 theorem step_good {cfg : Cfg} (hc : CfgChan cfg) (w : World) (a : Action) (hg : Good w) : Good (step cfg w a).1 := by
   unfold step
   cases hcur : w.current with
   | none =>
     cases a <;> simp only [] <;>
       (first | exact hg | exact Good.frame (loopRunTask_frame cfg w) hg | exact Good.frame (loopTimers_frame w) hg
+             | exact supPush_good hc w _ _ hg
              | exact Good.frame ⟨rfl, rfl, rfl, fun _ => Nat.le_refl _⟩ hg)
   | some f =>
     cases a with
@@ -495,6 +502,7 @@ theorem step_good {cfg : Cfg} (hc : CfgChan cfg) (w : World) (a : Action) (hg : 
     | runTask => exact hg
     | timers => exact hg
     | poll => exact hg
+    | supEvent c x => exact hg
 
 theorem run_good {cfg : Cfg} (hc : CfgChan cfg) (as : List Action) : ∀ w : World, Good w → Good (run cfg w as) := by
   induction as with
